@@ -547,6 +547,41 @@ def extract_guards(src: Path) -> str:
                            "   -- `self.request_complete = True` in the h11.EndOfMessage branch")
     except Exception as e:
         fail("h11RequestResetsComplete", str(e))
+    # C06 / C04: the guard under which `_handle_events` IGNORES a RemoteProtocolError (`except h11.RemoteProtocolError: if <guard>:
+    # <comment> break`), as a function of its atoms: is a stream live, is the request complete, h11's two states (index in the
+    # order of H11Tables.HSt).  Everything else in that handler (error response in IDLE / SEND_RESPONSE, Closed) is C04Sites'.
+    try:
+        fn = find_def(parse(src / "protocol/h11.py"), "H11Protocol", "_handle_events")
+        handlers = [h for n in ast.walk(fn) if isinstance(n, ast.Try) and "next_event()" in ast.unparse(n.body)  # type: ignore
+                    for h in n.handlers if h.type is not None and "RemoteProtocolError" in ast.unparse(h.type)]
+        if len(handlers) != 1:
+            fail("h11ErrorIgnored", "no single `except h11.RemoteProtocolError` around `next_event()` in _handle_events")
+        else:
+            body = handlers[0].body
+            ignoring = [st for st in body if isinstance(st, ast.If) and not st.orelse and len(st.body) == 1 and isinstance(st.body[0], ast.Break)]
+            closes = [i for i, st in enumerate(body) if ast.unparse(st) == "await self.send(Closed())"]
+            if len(ignoring) > 1 or (ignoring and body[0] is not ignoring[0]) or not closes or not isinstance(body[-1], ast.Break):
+                fail("h11ErrorIgnored", "the handler is not `[if <guard>: break]; …; await self.send(Closed()); break`")
+            else:
+                H11_STATES = ["IDLE", "SEND_RESPONSE", "SEND_BODY", "DONE", "MUST_CLOSE", "CLOSED", "ERROR", "MIGHT_SWITCH_PROTOCOL", "SWITCHED_PROTOCOL"]
+                NAMES.clear()
+                NAMES.update({"self.stream is not None": "streamLive", "self.request_complete": "requestComplete",
+                              "self.connection.our_state": "our", "self.connection.their_state": "their"})
+                for k, name in enumerate(H11_STATES):
+                    NAMES[f"h11.{name}"] = str(k)
+                    for side in ("our", "their"):
+                        NAMES[f"self.connection.{side}_state is h11.{name}"] = f"({side} == {k})"
+                        NAMES[f"self.connection.{side}_state is not h11.{name}"] = f"({side} != {k})"
+                try:
+                    g = expr(ignoring[0].test) if ignoring else "false"
+                    out.append(f"def h11ErrorIgnored (streamLive requestComplete : Bool) (our their : Nat) : Bool :=\n  {g}"
+                               f"   -- `{' '.join(ast.unparse(ignoring[0].test).split()) if ignoring else ''}`: RemoteProtocolError from next_event() is ignored (break) in "
+                               "H11Protocol._handle_events; our / their = index of h11's state in " + "/".join(H11_STATES))
+                except ValueError as e:
+                    fail("h11ErrorIgnored", f"the guard has an atom that is not one of {sorted(k for k in NAMES if not k.startswith('h11.'))[:6]}…: {e}")
+                NAMES.clear()
+    except Exception as e:
+        fail("h11ErrorIgnored", str(e))
     # the server's own `connection: close` (request maximum) is added to FINAL response heads only: the append sits inside the
     # `event.status_code >= 200` branch of H11Protocol.stream_send(Response); the informational branch (the 101 of a websocket
     # accept) sends the stream's headers and the configured ones, nothing else
@@ -1187,11 +1222,23 @@ def extract_runtime(src: Path) -> str:
                 continue
             st_cls = "AsyncioSingleTask" if worker == "asyncio" else "TrioSingleTask"
             stop = find_def(wc, st_cls, "stop")
-            awaits_cancelled = any(isinstance(n, ast.Await) and ast.unparse(n.value) == "self._handle" for n in ast.walk(stop))  # type: ignore
+            # (in `stop` itself or in a helper method of the class that `stop` awaits)
+            helpers = [find_def(wc, st_cls, ast.unparse(n.value.func)[5:]) for n in ast.walk(stop)  # type: ignore
+                       if isinstance(n, ast.Await) and isinstance(n.value, ast.Call) and ast.unparse(n.value.func).startswith("self._")]
+            awaits_cancelled = any(isinstance(n, ast.Await) and ast.unparse(n.value) == "self._handle"
+                                   for fn_ in [stop] + [h for h in helpers if h is not None] for n in ast.walk(fn_))  # type: ignore
+            # the state handed to the connection's protocol: a copy of the worker's lifespan state, made unconditionally
+            pw = [n for n in ast.walk(run) if isinstance(n, ast.Call) and ast.unparse(n.func) == "ProtocolWrapper"]  # type: ignore
+            if len(pw) != 1 or len(pw[0].args) < 5:
+                fail(f"runtime {worker}", "run(): ProtocolWrapper(...) call not recognised")
+                continue
+            copies_state = ast.unparse(pw[0].args[4]) in ("ConnectionState(self.state.copy())", "ConnectionState(dict(self.state))",
+                                                          "ConnectionState({**self.state})")
             b = lambda x: "true" if x else "false"  # noqa: E731
             out.append(f"def {worker}Rt : Runtime :=\n  {{ closedReenters := {b(closed_reenters)}, closeStopsIdle := {b(close_stops_idle)}, readEndStopsIdle := {b(read_end_stops)},\n"
                        f"    eofAlwaysPassedOn := {b(eof_always)}, writeErrorClosesProtocol := {b(write_err_closes)},\n"
-                       f"    timerTellsProtocolFirst := {b(timer_first)}, clearReplaces := {b(replaces)}, stopAwaitsCancelled := {b(awaits_cancelled)} }}")
+                       f"    timerTellsProtocolFirst := {b(timer_first)}, clearReplaces := {b(replaces)}, stopAwaitsCancelled := {b(awaits_cancelled)},\n"
+                       f"    copiesState := {b(copies_state)} }}")
         except Exception as e:
             fail(f"runtime {worker}", f"{type(e).__name__}: {e}")
     out += ["end HC.Extracted.Runtime", ""]
